@@ -382,6 +382,13 @@ def check(case):
         # a label Series in the case's label dtype (0/1 integers or floats) is converted by _update_labels
         got_s2 = guarded(mds._update_labels, pd.Series(sf), pd.Series(target), thr, desc, sig="_update_labels")
         require(np.array_equal(got_s2, got), "labels-series", f"label Series of dtype {case['ldtype']} gives different labels")
+        # the two Series need not share an index (a scores column of a sorted / filtered frame, labels from elsewhere):
+        # they are paired by position, as arrays are
+        n_ = len(sf)
+        idx1 = (np.arange(n_)[::-1] * 3 + 7) if n_ % 2 else np.roll(np.arange(n_), 1)
+        got_s3 = guarded(mds._update_labels, pd.Series(sf, index=idx1), pd.Series(tb), thr, desc, sig="_update_labels")
+        require(len(got_s3) == n_ and np.array_equal(np.asarray(got_s3), got), "labels-series",
+                "Series inputs with differing index labels are not paired by position")
         if any(labels) and not all(labels):
             # the dataset's label column in the case's label dtype, data copied or not
             copy = case["perm"] % 3 != 0
